@@ -1071,7 +1071,10 @@ def _mini_eval(fn: ast.FunctionDef, env: dict, allowed_calls: set[str], max_step
                 run(st.body if ev(st.test) else st.orelse)
             elif isinstance(st, ast.For):
                 broke = False
-                for x in list(ev(st.iter)):
+                for x in ev(st.iter):     # lazily: the iterable may be unbounded (itertools.count)
+                    steps += 1
+                    if steps > max_steps:
+                        raise Crash("does not terminate within the step bound (too many steps)")
                     store(st.target, x)
                     try:
                         run(st.body)
@@ -1488,8 +1491,11 @@ def eval_left_rec(wrapper: ast.FunctionDef, verbose: bool, stream: tuple, second
         return None
 
     def call():
-        env = {"self": me, "method": method, "method_name": "r", "print": lambda *a, **k: None}
-        return _mini_eval(wrapper, env, {"_mark", "_reset", "showpeek", "print", "method"}, max_steps=3000, local_calls=True)
+        import itertools as _itertools
+        import types as _types
+        env = {"self": me, "method": method, "method_name": "r", "print": lambda *a, **k: None,
+               "itertools": _types.SimpleNamespace(count=_itertools.count)}
+        return _mini_eval(wrapper, env, {"_mark", "_reset", "showpeek", "print", "method", "count"}, max_steps=3000, local_calls=True)
     tree = call()
     end = st["pos"]
     entry = me._cache.get((0, "r", ()))
@@ -1529,10 +1535,11 @@ def eval_memoize(wrapper: ast.FunctionDef, verbose: bool, succeeds: bool, args: 
         return None
 
     def call():
-        env = {"self": me, "method": method, "method_name": "r", "print": lambda *a, **k: None, "repr": repr}
+        env = {"self": me, "method": method, "method_name": "r", "print": lambda *a, **k: None, "repr": repr, "map": map,
+               "_format_call_args": (lambda a: ",".join(repr(x) for x in a))}
         if wrapper.args.vararg is not None:
             env[wrapper.args.vararg.arg] = tuple(args)
-        return _mini_eval(wrapper, env, {"_mark", "_reset", "showpeek", "print", "method", "join", "repr"}, max_steps=2000, local_calls=True)
+        return _mini_eval(wrapper, env, {"_mark", "_reset", "showpeek", "print", "method", "join", "repr", "get", "map"}, max_steps=2000, local_calls=True)
     tree = call()
     end = st["pos"]
     entry = me._cache.get((3, "r", tuple(args)))
